@@ -756,9 +756,12 @@ class Xor2(Logic):
         self.b = self.addIn("b", b)
         self.r = self.addOut("r", r)
 
-        mid = self.wire("Mid", a.getWidth())
-        xout = self.wire("XOut", a.getWidth())
-        yout = self.wire("YOut", a.getWidth())
+        # the internal wires must hold every bit of the result and of both operands
+        w = max(a.getWidth(), b.getWidth(), r.getWidth())
+        
+        mid = self.wire("Mid", w)
+        xout = self.wire("XOut", w)
+        yout = self.wire("YOut", w)
 
         Nand2(self, "NandMid", a, b, mid)
         Nand2(self, "NandX", a, mid, xout)
